@@ -140,7 +140,7 @@ def fixLoop (S : Sys) (eps mb mu : Rat) : St → List Nat → St
   | st, v :: rest =>
     let V := S.var v
     if mb < 0 then fixLoop S eps mb mu (fixVar S eps st v (mu / V.penalty)) rest
-    else if dblEq mb (V.bound * V.penalty) eps then fixLoop S eps mb mu (fixVar S eps st v V.bound) rest
+    else if decide (0 < V.bound) && dblEq mb (V.bound * V.penalty) eps then fixLoop S eps mb mu (fixVar S eps st v V.bound) rest
     else fixLoop S eps mb mu st rest
 
 /-- "Find out which variables reach the maximum": min_usage = -1, clear, scan the light tab -/
